@@ -55,6 +55,8 @@ def main():
                 import re
                 names += re.findall(r"^func (Test\w+)\(", open(f).read(), re.M)
             tags = ["-tags", "verif"] if any("go:build verif" in open(f).read() for f in go_demos) else []
+            if any("go:build race" in open(f).read() for f in go_demos):
+                tags = tags + ["-race"]
             rc, out = sh(["go", "test", "-vet=off", "-count=1"] + tags + ["-run", "^(%s)$" % "|".join(names), "./" + pkg], cwd=wt, timeout=1200)
             for f in go_demos:
                 os.remove(os.path.join(wt, pkg, "zz_seed_" + os.path.basename(f)))
